@@ -134,6 +134,21 @@ class OffPolicyCont(Adapter):
         return c
 
 
+def _perturb_supplied_targets(run, comps):
+    """Supplied target networks that DIFFER from the online networks (as after a restore from an older checkpoint), and
+    optionally only one of the two targets supplied: a spurious copy / re-clone is invisible while target == online."""
+    f = run.plan.get("perturb_targets")
+    if f:
+        for k in ("policy_target", "q_target"):
+            if k in comps:
+                _scale_params(comps[k], f)
+    only = run.plan.get("supply_only")
+    if only == "q":
+        comps.pop("policy_target", None)
+    elif only == "policy" and "policy_target" in comps:
+        comps.pop("q_target", None)
+
+
 def _scale_params(module, factor):
     """Multiply all parameters by `factor` (saturating tanh heads)."""
     if factor == 1.0:
@@ -169,6 +184,7 @@ class DDPG(OffPolicyCont):
         if run.plan.get("supply_targets"):
             comps["policy_target"] = nnx.clone(st.policy)
             comps["q_target"] = nnx.clone(st.q)
+            _perturb_supplied_targets(run, comps)
         return comps
 
     def _train(self):
@@ -302,6 +318,8 @@ class SAC(DDPG):
         comps = {"policy": st.policy, "policy_opt": st.policy_optimizer, "q": st.q, "q_opt": st.q_optimizer}
         if run.plan.get("supply_targets"):
             comps["q_target"] = nnx.clone(st.q)
+            if run.plan.get("perturb_targets"):
+                _scale_params(comps["q_target"], run.plan["perturb_targets"])
         run.entropy_control = EntropyControl(run.env, 0.2, c["autotune"], 1e-2)
         return comps
 
@@ -371,6 +389,8 @@ class DQNFamily(Adapter):
         comps = {"q": q, "q_opt": opt}
         if run.plan.get("supply_targets") and self.name != "dqn":
             comps["q_target"] = nnx.clone(q)
+            if run.plan.get("perturb_targets"):
+                _scale_params(comps["q_target"], run.plan["perturb_targets"])
         return comps
 
     def make_buffer(self, run, size):
